@@ -437,7 +437,8 @@ C10_THMS = ['Theo.C10_fresh_across_steps', 'Theo.C10_same_within_step', 'Theo.C1
             'Theo.C10_one_rewrite_per_pass', 'Theo.C10_step_uses_pass', 'Theo.C10_not_user_writable']
 C11_THMS = ['Theo.C11_rewrites_le_budget', 'Theo.C11_unfinished_flagged', 'Theo.C11_no_error_fixpoint',
             'Theo.C11_not_passed_on', 'Theo.C11_step_exists_indep', 'Theo.C11_growth_linear', 'Theo.C11_growth_linear_budget',
-            'Theo.C11_growth_linear_usable', 'Theo.C11_growth_general', 'Theo.C11_growth_statement_false', 'Theo.C11_growth_step_linear']
+            'Theo.C11_growth_linear_usable', 'Theo.C11_growth_general', 'Theo.C11_growth_statement_false', 'Theo.C11_growth_step_linear',
+            'Theo.C11_extracted_tt_nodup', 'Theo.C11_growth_extracted_budget', 'Theo.C11_growth_extracted_self']
 
 TEMP_MACROS = [
     # (definitions, uses)
@@ -708,7 +709,7 @@ def check_C10(ctx):
 
 
 def check_C11(ctx):
-    build_all(ctx, ['Theo.Props.C11', 'Theo.Props.C11Growth'], C11_THMS)
+    build_all(ctx, ['Theo.Props.C11', 'Theo.Props.C11Growth', 'Theo.Props.C11GrowthExtracted'], C11_THMS)
     if ctx.harness is None:
         return finish(ctx)
     texts = [
